@@ -16,11 +16,10 @@
       new or reset ones; the loaded world has the dumped pool, one row of the component-less
       table per alive entity, a fresh index and target flags, and is otherwise untouched.
       The rebuilt index sends the j-th alive ID to row (old length + j) of table 0.
-    Not proved: the entity column of table 0 (that row j holds that entity needs the capacity
-    lemmas of TableProofs; shown on the example, compared on every run by the correspondence,
-    and checked on the implementation by the twin-world oracle, which queries and keeps using
-    the loaded worlds). *)
-From Ark Require Import Model.Base Model.Pool Model.Codec Model.Mask Model.World Model.Run Model.DumpLoad Model.DumpLoadW Proofs.CodecProofs Proofs.DumpLoadProofs Proofs.DumpLoadWProofs.
+      and that row holds the entity (index and table agree on every loaded entity).
+    Hypotheses taken from the C01 storage invariant rather than re-derived: the Alive list is
+    well formed ([alive_ok]) and duplicate-free. *)
+From Ark Require Import Model.Base Model.Pool Model.Codec Model.Mask Model.World Model.Run Model.DumpLoad Model.DumpLoadW Proofs.CodecProofs Proofs.DumpLoadProofs Proofs.DumpLoadWProofs Proofs.TableProofs.
 
 Theorem C17_bin_roundtrip :
   forall id gen, (id < u32_bound)%N -> (gen < u32_bound)%N ->
@@ -145,6 +144,31 @@ Theorem C17_world_load_index : forall s t t',
                nth_error (w_index t') k = Some (Some 0, 0)).
 Proof. exact w_load_index. Qed.
 
+(** The entity column: if the receiving world's component-less table is well formed
+    ([tbl_ok], true of a new world: [C17_new_world_table_ok]), after the load it is well formed
+    again, row (old length + j) holds the entity stored in the dumped pool at the j-th ID of the
+    Alive list (by [alive_ok] that is the alive entity with that ID), and the rows that were
+    there are unchanged. With [C17_world_load_index]: index and table agree on every loaded
+    entity. (Bound 2^31 rows: the uint32 arithmetic of the tables is modelled without wrap.) *)
+Theorem C17_world_load_rows : forall s t t' t0,
+  has_reserved (w_pool s) ->
+  nth_error (w_tables t) 0 = Some t0 -> tbl_ok t0 ->
+  t_len t0 + length (alive_ids s) < Nat.pow 2 31 ->
+  w_load_entities (w_dump_entities s) t = Some t' ->
+  exists t1, nth_error (w_tables t') 0 = Some t1 /\ tbl_ok t1 /\
+    t_len t1 = t_len t0 + length (alive_ids s) /\
+    (forall j i, nth_error (alive_ids s) j = Some i ->
+       exists e, nth_error (pe (w_pool s)) i = Some e /\ row_ent t1 (t_len t0 + j) = e) /\
+    (forall r, r < t_len t0 -> row_ent t1 r = row_ent t0 r).
+Proof. exact w_load_rows. Qed.
+
+Theorem C17_new_world_table_ok : forall c,
+  exists t0, nth_error (w_tables (init_world c)) 0 = Some t0 /\ tbl_ok t0 /\ t_len t0 = 0.
+Proof.
+  intros c; eexists; split; [reflexivity|]; split; [|reflexivity].
+  apply new_table_ok; cbn; auto.
+Qed.
+
 Theorem C17_world_load_alive : forall s t t' h,
   has_reserved (w_pool s) -> w_load_entities (w_dump_entities s) t = Some t' ->
   alive t' h = alive s h.
@@ -194,5 +218,5 @@ Example C17_example :
 Proof. vm_compute. repeat split; reflexivity. Qed.
 
 (** One traversal of the dependency graph for all theorems of this file. *)
-Definition C17_all := (C17_bin_roundtrip, C17_bin_shape, C17_bin_reject, C17_bin_bijective, C17_bin_append, C17_json_roundtrip, C17_scripts_reserved, C17_load_fresh_or_reset, C17_load_dump_alive, C17_load_dump_future, C17_load_rejected_iff, C17_world_load_rejected, C17_world_load_succeeds, C17_world_load_result, C17_world_load_index, C17_world_load_alive, C17_world_load_future).
+Definition C17_all := (C17_bin_roundtrip, C17_bin_shape, C17_bin_reject, C17_bin_bijective, C17_bin_append, C17_json_roundtrip, C17_scripts_reserved, C17_load_fresh_or_reset, C17_load_dump_alive, C17_load_dump_future, C17_load_rejected_iff, C17_world_load_rejected, C17_world_load_succeeds, C17_world_load_result, C17_world_load_index, C17_world_load_rows, C17_new_world_table_ok, C17_world_load_alive, C17_world_load_future).
 Print Assumptions C17_all.
